@@ -241,17 +241,17 @@ def param_rows(draw, names, kmax=5, ks=(0, 1, 1, 2, 3, 5)):
 
 @st.composite
 def domain_case(draw, tier="quick", kinds=("interior", "boundary", "product", "depproduct", "bproduct"),
-                dims=(1, 2, 2, 2, 3), max_depth=None, pdep=0.45, min_ratio=0.08):
+                dims=(1, 2, 2, 2, 3), max_depth=None, pdep=0.45, min_ratio=0.08, pvar_choices=None):
     """top-level domain spec + the parameter variables it may depend on.
     Returns dict(E=spec, kind=..., pvars=[names]) ; E's free variables are a subset of pvars."""
     max_depth = max_depth if max_depth is not None else (3 if tier == "quick" else 4)
     kind = draw(st.sampled_from(list(kinds)))
     lattice = draw(st.integers(0, 4)) == 0
     far = (not lattice) and draw(st.integers(0, 11)) == 0
-    use_p = draw(st.integers(0, 9)) < 6
+    use_p = draw(st.integers(0, 9)) < 6 or pvar_choices is not None
     dep = {}
     if use_p:
-        for n in draw(st.sampled_from([["p"], ["p"], ["q"], ["p", "q"]])):
+        for n in draw(st.sampled_from(list(pvar_choices) if pvar_choices else [["p"], ["p"], ["q"], ["p", "q"]])):
             dep[n] = (PVARS[n], 0.0, 1.0)
     ctx = Ctx(dep, pdep if dep else 0.0, lattice, far)
     depth = draw(st.integers(0, max_depth))
